@@ -1,0 +1,28 @@
+//go:build verif
+
+// Package verifhook provides trace/gate hooks used by the external verification
+// harness. The hooks are compiled in only with the `verif` build tag.
+package verifhook
+
+import "sync/atomic"
+
+// On tells call sites whether hooks are compiled in.
+const On = true
+
+type sinkFn func(ev string, kv ...interface{})
+
+var sink atomic.Value // sinkFn
+
+// SetSink installs the function receiving every event (nil disables).
+// The sink may block the calling goroutine: that is how schedules are forced.
+func SetSink(f func(ev string, kv ...interface{})) {
+	sink.Store(sinkFn(f))
+}
+
+// Emit reports an event to the installed sink, if any.
+func Emit(ev string, kv ...interface{}) {
+	f, _ := sink.Load().(sinkFn)
+	if f != nil {
+		f(ev, kv...)
+	}
+}
